@@ -50,19 +50,21 @@ def digitsVal : List Char → Nat → Option Nat
     | some d => digitsVal cs (acc * 10 + d)
     | none => none
 
+/-- digits (at least one) with the sign applied, in the 64-bit range -/
+def atoiBody (neg : Bool) (cs : List Char) : Option Int :=
+  if cs.isEmpty then none else
+  match digitsVal cs 0 with
+  | none => none
+  | some n =>
+    let v : Int := if neg then -(n : Int) else (n : Int)
+    if minInt64 ≤ v ∧ v ≤ maxInt64 then some v else none
+
 /-- `strconv.Atoi` on a 64-bit platform: optional sign, one or more decimal digits, in range -/
 def atoi (s : String) : Option Int :=
-  let body (neg : Bool) (cs : List Char) : Option Int :=
-    if cs.isEmpty then none else
-    match digitsVal cs 0 with
-    | none => none
-    | some n =>
-      let v : Int := if neg then -(n : Int) else (n : Int)
-      if minInt64 ≤ v ∧ v ≤ maxInt64 then some v else none
   match s.toList with
-  | '+' :: cs => body false cs
-  | '-' :: cs => body true cs
-  | cs => body false cs
+  | '+' :: cs => atoiBody false cs
+  | '-' :: cs => atoiBody true cs
+  | cs => atoiBody false cs
 
 /-! ## float conversions (executable models of the hardware operations) -/
 
